@@ -46,6 +46,11 @@ def templates(tier):
         ("T3a", E("Z", ["m"], take(T("A", "m"), T("B", "m"), sel=0), times(T("C", "m")))),
         ("T3b", E("Z", ["m"], times(T("C", "m")), take(T("A", "m"), T("B", "m"), sel=1))),
     ]
+    # several take() terms; take() with a scalar operand (selected and not selected)
+    ts.append(("T4", E("Z", ["m"], take(T("A", "m"), T("B", "m"), sel=0), take(T("C", "m"), T("D", "m"), sel=1))))
+    ts.append(("T5a", E("Z", ["m"], take(T("A", "m"), V("a"), T("B", "m"), sel=0))))
+    ts.append(("T5b", E("Z", ["m"], take(T("A", "m"), V("a"), T("B", "m"), sel=1))))
+    ts.append(("T5c", E("Z", ["m", "n"], take(T("A", "k", "m"), V("a"), T("B", "k", "n"), sel=2))))
     # two tensors sharing two contracted ranks: a tensor lacking only part of a flattened tuple is looked up by
     # several coordinates at once
     ts.append(("P8b", E("Z", ["m", "n"], times(T("A", "j", "k", "m"), T("B", "j", "k", "n")))))
